@@ -4,6 +4,7 @@
 -/
 import Pdlv.JavaSpec
 import Pdlv.Lemmas.JavaArrays
+import Pdlv.Lemmas.Local
 
 namespace Pdlv
 namespace JavaSpec
@@ -138,6 +139,90 @@ theorem dispatch_first (c : Cfg) (nm : String) (fb : Bool) (pv : Value) : ∀ (p
   | p :: pre, k, post, h, hk => by
     simp only [List.cons_append, dispatch, h p (List.mem_cons_self ..), Bool.false_eq_true, ↓reduceIte]
     exact dispatch_first c nm fb pv pre k post (fun k' hk' => h k' (List.mem_cons_of_mem _ hk')) hk
+
+/-- in the class of the parser theorem, `field_width()` of a node is eight times the octets the reference's parser of the
+    own fields consumes -/
+theorem ownWidth_static : ∀ (is : Items) (w : Nat), Java.decWfItems2 is = true → ownWidth is = some w →
+    ∃ n, staticItems is = some n ∧ w = 8 * n ∧ localWfItems is = true
+  | .nil, w, _, h => by
+    simp only [ownWidth, Option.some.injEq] at h
+    exact ⟨0, rfl, by omega, rfl⟩
+  | .cons i r, w, hw, h => by
+    cases i with
+    | chunk fs =>
+      simp only [Java.decWfItems2, Bool.and_eq_true, Bool.or_eq_true, beq_iff_eq] at hw
+      simp only [ownWidth, Option.map_eq_some_iff] at h
+      obtain ⟨w', hw', rfl⟩ := h
+      obtain ⟨n, hn, rfl, hl⟩ := ownWidth_static r w' hw.2 hw'
+      refine ⟨chunkBits fs / 8 + n, by simp [staticItems, staticItem, hn], ?_, by simp [localWfItems, localWfItem, hl]⟩
+      rcases hw.1.2 with (h8 | h8) | h8 <;> omega
+    | payload m => simp [ownWidth] at h
+    | typedef a b c => simp [Java.decWfItems2] at hw
+    | optional a b c d => simp [Java.decWfItems2] at hw
+    | array id elem ew shape pad =>
+      cases elem with
+      | scalar ws =>
+        cases ew with
+        | static eb =>
+          cases pad with
+          | none =>
+            cases shape with
+            | static cnt =>
+              simp only [Java.decWfItems2, Bool.and_eq_true, Bool.or_eq_true, beq_iff_eq] at hw
+              simp only [ownWidth, Option.map_eq_some_iff] at h
+              obtain ⟨w', hw', rfl⟩ := h
+              obtain ⟨n, hn, rfl, hl⟩ := ownWidth_static r w' hw.2 hw'
+              obtain ⟨⟨hws, heb⟩, _⟩ := hw
+              subst heb
+              refine ⟨cnt * (ws / 8) + n, by simp [staticItems, staticItem, staticTy, hn], ?_,
+                by simp [localWfItems, localWfItem, localWfTy, staticTy, hl]⟩
+              rcases hws with ((h8 | h8) | h8) | h8 <;> subst h8 <;> omega
+            | countField => simp [ownWidth] at h
+            | sizeField => simp [ownWidth] at h
+            | unknown => simp [ownWidth] at h
+          | some _ => simp [Java.decWfItems2] at hw
+        | dynamic => simp [Java.decWfItems2] at hw
+        | unknown => simp [Java.decWfItems2] at hw
+      | enumTy _ _ => simp [Java.decWfItems2] at hw
+      | struct _ _ => simp [Java.decWfItems2] at hw
+      | custom _ _ => simp [Java.decWfItems2] at hw
+
+/-- a child whose static width is not the payload's length is one the reference's `decode_partial` rejects -/
+theorem unfit_width (c : Cfg) (nm : String) (parent : Body) (cs allCs : List (String × Nat)) (items : Items)
+    (hp : parent.hasPayload = true) (hwi : Java.decWfItems2 items = true) (w : Nat) (how : ownWidth items = some w) (pv : Value)
+    (hne : ((payloadOf pv).length == w / 8) = false) (v : Value) :
+    refChild c (.derived nm parent cs allCs items) pv ≠ .ok v := by
+  intro h
+  obtain ⟨n, hn, rfl, hl⟩ := ownWidth_static items w hwi how
+  have hex := decItems_exact_len (ideal c) items n DState.empty hn hl
+  have hlen : (payloadOf pv).length ≠ n := by
+    intro he
+    rw [he] at hne
+    simp at hne
+  unfold payloadOf at hlen
+  have fin : ∀ (pb : Bytes) (k : DState × Bytes → Dec Value), pb.length ≠ n →
+      (∀ st' rest', rest'.isEmpty = false → k (st', rest') = .err .trailingBytes) →
+      (Pdlv.decItems (ideal c) items pb DState.empty).bind k ≠ .ok v := by
+    intro pb k hpb hk hh
+    obtain ⟨⟨st', rest'⟩, h1, h2⟩ := bind_ok _ _ _ hh
+    have hx := hex pb st' rest' h1
+    cases hre : rest'.isEmpty with
+    | true =>
+      have : rest'.length = 0 := by simpa using hre
+      omega
+    | false =>
+      rw [hk st' rest' hre] at h2
+      cases h2
+  simp only [refChild, decPartialWith, hp, ↓reduceIte] at h
+  by_cases hv : violated parent pv cs = true
+  · simp [hv] at h
+  · simp only [hv, Bool.false_eq_true, ↓reduceIte] at h
+    cases hl' : pv.fields.lookup "payload" with
+    | none =>
+      simp only [hl'] at h hlen
+      exact fin _ _ hlen (fun st' rest' hre => by simp [hre]) h
+    | some x =>
+      cases x <;> simp only [hl'] at h hlen <;> exact fin _ _ hlen (fun st' rest' hre => by simp [hre]) h
 
 end JavaSpec
 end Pdlv
